@@ -497,6 +497,12 @@ class Exec:
                 actuals = self.call_actuals(call)
                 for pn, ao in zip(pnames, actuals):
                     amap[pn] = argval(func, ao, argmap, loop_)
+                if call['invoke'] and pnames and amap.get(pnames[0]) is not None:
+                    impl = vc.cs.impl.get(call['iface'])
+                    if impl and cf is not None:
+                        amap[pnames[0]] = unbox(vc, amap[pnames[0]], impl)
+                    elif amap[pnames[0]].sort == 'Any':
+                        amap[pnames[0]] = None
                 for kind, ex, text in cc.assigns:
                     r = self.assign_target_heap(cc, cf, kind, ex, amap, pre_st)
                     add(*r)
@@ -508,6 +514,9 @@ class Exec:
                 amap = {}
                 for p, ao in zip(cf.params, self.call_actuals(call)):
                     amap[p['n']] = argval(func, ao, argmap, loop_)
+                if call['invoke'] and cf.params and amap.get(cf.params[0]['n']) is not None:
+                    impl = vc.cs.impl.get(call['iface'])
+                    amap[cf.params[0]['n']] = unbox(vc, amap[cf.params[0]['n']], impl) if impl else None
                 return scan_func(cf, [b['idx'] for b in cf.blocks], amap, depth + 1, {'body': set()})
             return 'all'
 
@@ -823,6 +832,8 @@ class Exec:
             loc = Loc('cell', ets, ref=ref)
             vc.store(self.st, loc, vc.zero(ets))
         self.vals[ins['n']] = V(ref, 'Int', ins['t'])
+        if ins.get('comment'):
+            self.named[ins['comment']] = self.vals[ins['n']]
 
     def zero_struct(self, ref, sts):
         vc = self.vc
